@@ -147,7 +147,7 @@ structure SameStatus (th x : Thread) : Prop where
 
 theorem UserInv.set_same {s : Store} {thr : List Thread} (h : UserInv s thr) {u : Nat} {th : Thread}
     (hu : thr[u]? = some th) {x : Thread} (hs : SameStatus th x) : UserInv s (thr.set u x) := by
-  refine ⟨h.uAbs, ?_, ?_⟩
+  refine ⟨h.uPlain, h.uAbs, ?_, ?_⟩
   · intro t a k ha hp
     have key : ∀ (t0 : Nat) (a0 : Thread), thr[t0]? = some a0 → PendIns a0 k →
         k ∈ s.kheld ∧ (∀ it, it ∈ s.abs → it.key ≠ k) ∧
@@ -180,7 +180,7 @@ theorem UserInv.set_same {s : Store} {thr : List Thread} (h : UserInv s thr) {u 
 
 theorem UserInv.congr {s s' : Store} {thr : List Thread} (h : UserInv s thr) (ha : s'.abs = s.abs) (hk : s'.kheld = s.kheld) :
     UserInv s' thr := by
-  refine ⟨?_, ?_, ?_⟩
+  refine ⟨by rw [hk]; exact h.uPlain, ?_, ?_, ?_⟩
   · intro it hit hp; rw [hk]; rw [ha] at hit; exact h.uAbs it hit hp
   · intro t a k hta hp; rw [hk, ha]; exact h.uIns t a k hta hp
   · intro t a k hta hp; rw [hk, ha]; exact h.uRm t a k hta hp
